@@ -5,7 +5,9 @@ from .util import call, LETTERS
 
 ID = 'C15'
 LEAN_MODULE = 'KernProofs.C15'
-THEOREMS = ['KM.C15.C15_links_kept', 'KM.C15.C15_non_notes_unchanged', 'KM.C15.mapM_pd', 'KM.C15.C15_note', 'KM.C15.C15_pitch_is_C09', 'KM.C15.C15_bad_arguments', 'KM.C15.C15_source_is_modified', 'KM.C15.C15_accidental_not_merged', 'KM.C15.C15_chords_not_transposed']
+EXTRA_MODULES = ['KernProofs.C15Doc']
+THEOREMS = ['KM.C15.C15_links_kept', 'KM.C15.C15_non_notes_unchanged', 'KM.C15.mapM_pd', 'KM.C15.C15_note', 'KM.C15.C15_pitch_is_C09', 'KM.C15.C15_bad_arguments', 'KM.C15.C15_source_is_modified', 'KM.C15.C15_accidental_not_merged', 'KM.C15.C15_chords_not_transposed',
+            'KM.C15D.nodeStep_skel', 'KM.C15D.nodeStep_tok', 'KM.C15D.C15_same_skeleton', 'KM.C15D.C15_export']
 FINGERPRINTS = ['document.Document', 'transposer.transpose', 'pitch_models.AgnosticPitch', 'pitch_models.HumdrumPitchExporter.export_pitch',
                 'pitch_models.HumdrumPitchImporter._parse_pitch', 'tokens.NoteRestToken.export']
 RULE = ('core stream: generated documents whose notes are single notes without explicit accidental (all spine types, splits, comments; quick 12 / '
@@ -58,8 +60,9 @@ def explore(ctx, depth):
                 specs = [next(resp) for _ in notes]
                 inp = {'text': text, 'interval': n, 'direction': d}
                 src, _ = kp.loads(text)          # a fresh import for every call (the call is known to modify its source)
+                d_rt = ''.join(list(d))          # equal to 'up' / 'down', built at run time (not the interned literal)
                 def run():
-                    t = src.to_transposed(n, d)
+                    t = src.to_transposed(n, d_rt)
                     return t
                 r = call(run)
                 nt = n != 'P1' and len(notes) >= 2
@@ -116,6 +119,43 @@ def explore(ctx, depth):
                     if has_acc and n not in ('P1', 'octave') and 'ok' in out:
                         ctx.fail({**inp, 'clause': 'accidentals merged'}, 'a note with an explicit accidental keeps its old accidental next to the transposed pitch', impl=None,
                                  core=False, finding='F14a-accidental-not-merged', tie_ok=tie_ok)
+    # a long score (more lines than the interpreter's recursion limit): the same statement, on a single spine of plain notes
+    import sys
+    nrows = 2 * sys.getrecursionlimit() + 300
+    letters = ['c', 'd', 'e', 'f', 'g', 'a', 'b', 'cc', 'C', 'G']
+    long_lines = ['**kern', '*clefG2']
+    long_notes = []
+    for i in range(nrows):
+        if i % 8 == 0:
+            long_lines.append('=%d' % (i // 8 + 1))
+        p = letters[(i * 7) % len(letters)]
+        long_notes.append(p)
+        long_lines.append('4' + p)
+    long_lines.append('*-')
+    long_text = '\n'.join(long_lines) + '\n'
+    for (n, d) in (('M2', 'up'), ('P5', 'down')):
+        v = dict(ivs)[n]
+        specs = ctx.driver.ask([{'op': 'c09.case', 'l': decode(p)[0], 'a': 0, 'o': decode(p)[1], 'iv': v, 'ivname': n, 'dir': d} for p in letters])
+        table = {p: s['spec']['ok'] for p, s in zip(letters, specs)}
+        def run_long():
+            src = kp.loads(long_text)[0]
+            return kp.dumps(src.to_transposed(n, d))
+        got = call(run_long)
+        exp_lines = []
+        k = 0
+        for ln in long_lines:
+            if ln.startswith('4'):
+                exp_lines.append('4' + table[long_notes[k]]); k += 1
+            elif ln.startswith('='):
+                exp_lines.append('=')
+            else:
+                exp_lines.append(ln)
+        exp = {'ok': '\n'.join(exp_lines) + '\n'}
+        ctx.seen({'clause': 'long score', 'rows': nrows, 'interval': n, 'direction': d}, True)
+        if got != exp:
+            ctx.fail({'clause': 'long score', 'rows': nrows, 'interval': n, 'direction': d, 'text_head': long_text[:80]},
+                     'transposing a long single-spine score of plain notes is not the score with its pitch letters replaced by the C09 result',
+                     impl=str(got)[:300], expected=exp['ok'][:300])
     # bad arguments
     d0, _ = kp.loads('**kern\n*clefG2\n4c\n*-\n')
     for n, d in (('M99', 'up'), ('M2', 'sideways'), ('', 'up')):
